@@ -100,10 +100,25 @@ func compF(si *StructInfo, i int) string { return "F." + si.Name + "." + si.Fiel
 func trimSort(s Sort) string {
 	return strings.NewReplacer("|", "", "(", "<", ")", ">", " ", "_").Replace(string(s))
 }
-func compP(s Sort) string     { return "P." + trimSort(s) }
-func compE(s Sort) string     { return "E." + trimSort(s) }
-func compMD(k, v Sort) string { return "MD." + trimSort(k) + "." + trimSort(v) }
-func compMV(k, v Sort) string { return "MV." + trimSort(k) + "." + trimSort(v) }
+
+// Component names are keyed by Go type (after substitution of type parameters), so that e.g. the
+// cells of captured ints and of captured pointers, or []string and []Kind, never alias in the model.
+func (f *Frame) tkey(t types.Type) string {
+	t = types.Unalias(f.subst(t))
+	if tp, ok := t.(*types.TypeParam); ok {
+		if ct := coreTypeOf(tp); ct != nil {
+			return tp.Obj().Name() + "~" + f.tkey(ct)
+		}
+	}
+	if b, ok := t.(*types.Basic); ok && b.Kind() < types.UntypedBool && b.Kind() != types.Invalid {
+		return types.Typ[b.Kind()].Name()
+	}
+	return strings.NewReplacer("|", "/", "\\", "/").Replace(f.ctx.eng.sorts.typeName(f.subst(t)))
+}
+func (f *Frame) pName(t types.Type) string     { return "P." + f.tkey(t) }
+func (f *Frame) eName(t types.Type) string     { return "E." + f.tkey(t) }
+func (f *Frame) mdName(k, v types.Type) string { return "MD." + f.tkey(k) + "." + f.tkey(v) }
+func (f *Frame) mvName(k, v types.Type) string { return "MV." + f.tkey(k) + "." + f.tkey(v) }
 
 // ---- frame-level memory operations -------------------------------------------------------------
 
@@ -209,7 +224,7 @@ func (f *Frame) readRoot(st *State, l LocVal) *Term {
 		return f.ctx.comp(st, name, f.sortOf(l.rootT))
 	case locElem:
 		es := f.sortOf(l.rootT)
-		E := f.ctx.comp(st, compE(es), ArrS(SInt, ArrS(SInt, es)))
+		E := f.ctx.comp(st, f.eName(l.rootT), ArrS(SInt, ArrS(SInt, es)))
 		return Select(Select(E, l.ref), l.idx)
 	case locHeap:
 		if isStructT(f.subst(l.rootT)) {
@@ -222,11 +237,11 @@ func (f *Frame) readRoot(st *State, l LocVal) *Term {
 		}
 		if a, ok := f.subst(l.rootT).Underlying().(*types.Array); ok {
 			es := f.sortOf(a.Elem())
-			E := f.ctx.comp(st, compE(es), ArrS(SInt, ArrS(SInt, es)))
+			E := f.ctx.comp(st, f.eName(a.Elem()), ArrS(SInt, ArrS(SInt, es)))
 			return Select(E, l.ref)
 		}
 		s := f.sortOf(l.rootT)
-		P := f.ctx.comp(st, compP(s), ArrS(SInt, s))
+		P := f.ctx.comp(st, f.pName(l.rootT), ArrS(SInt, s))
 		return Select(P, l.ref)
 	}
 	panic("readRoot")
@@ -253,7 +268,7 @@ func (f *Frame) writeRoot(st *State, l LocVal, v *Term) {
 		st.heap[name] = v
 	case locElem:
 		es := f.sortOf(l.rootT)
-		name := compE(es)
+		name := f.eName(l.rootT)
 		E := f.ctx.comp(st, name, ArrS(SInt, ArrS(SInt, es)))
 		st.heap[name] = f.ctx.name("E", Store(E, l.ref, Store(Select(E, l.ref), l.idx, v)))
 	case locHeap:
@@ -266,13 +281,13 @@ func (f *Frame) writeRoot(st *State, l LocVal, v *Term) {
 		}
 		if a, ok := f.subst(l.rootT).Underlying().(*types.Array); ok {
 			es := f.sortOf(a.Elem())
-			name := compE(es)
+			name := f.eName(a.Elem())
 			E := f.ctx.comp(st, name, ArrS(SInt, ArrS(SInt, es)))
 			st.heap[name] = f.ctx.name("E", Store(E, l.ref, v))
 			return
 		}
 		s := f.sortOf(l.rootT)
-		name := compP(s)
+		name := f.pName(l.rootT)
 		P := f.ctx.comp(st, name, ArrS(SInt, s))
 		st.heap[name] = f.ctx.name("P", Store(P, l.ref, v))
 	}
